@@ -104,6 +104,13 @@ type c24Tier struct {
 	ageName []string
 	comps   [][2]int // (commitments, responses) relative: filled with the real threshold
 	depth2  int      // sequences of two events for configurations with <= depth2 aggregators (-1: none)
+	canon   int      // index of the age "gap+1": the one age of a proposal whose timestamp the event does not read
+	oldest  int      // index of the age "2gap+2" (-1: not in the alphabet)
+	// oldestNarrow: the oldest age is enumerated only where it adds something, a
+	// proposal sharing a transaction with another aged proposal, and only under expiry
+	oldestNarrow bool
+	companions   int // most unguarded companions of a proposal deferred by the duplicate guard
+	reps         int // executions of a case whose outcome may depend on Go's map iteration order
 }
 
 // c24Inst is one real node whose four transactions are in a fixed ledger/cache
@@ -230,7 +237,11 @@ func (in *c24Inst) counts(a c24Agg) (int, int) {
 // aggregators keyed by snapshot hash, a verifier per proposal registered under
 // the snapshot hash and under every transaction, later proposals overwriting
 // the transaction entries of earlier ones.
-func (in *c24Inst) install(cfg []c24Agg) {
+//
+// Go visits a small map in insertion order with probability 7/8 (and rotated
+// otherwise): reverse inserts the proposals youngest first, so that repeated
+// executions of a case reach both visiting orders of expireCosiAggregators.
+func (in *c24Inst) install(cfg []c24Agg, reverse bool) {
 	ch := in.chain
 	ch.State = in.real
 	ch.CosiAggregators = make(map[crypto.Hash]*CosiAggregator)
@@ -241,6 +252,7 @@ func (in *c24Inst) install(cfg []c24Agg) {
 		order[i] = i
 	}
 	sort.SliceStable(order, func(a, b int) bool { return in.ts(cfg[order[a]]) < in.ts(cfg[order[b]]) })
+	var aggs []*CosiAggregator
 	for _, k := range order {
 		a := cfg[k]
 		s := &common.Snapshot{
@@ -276,8 +288,17 @@ func (in *c24Inst) install(cfg []c24Agg) {
 		for _, h := range s.Transactions {
 			ch.CosiVerifiers[h] = v
 		}
-		ch.CosiAggregators[s.Hash] = agg
+		aggs = append(aggs, agg)
 		in.live[k] = s
+	}
+	if reverse {
+		for i := len(aggs) - 1; i >= 0; i-- {
+			ch.CosiAggregators[aggs[i].Snapshot.Hash] = aggs[i]
+		}
+	} else {
+		for _, agg := range aggs {
+			ch.CosiAggregators[agg.Snapshot.Hash] = agg
+		}
 	}
 }
 
@@ -346,7 +367,9 @@ func (in *c24Inst) enabled(cfg []c24Agg) []c24Event {
 	// a proposal with at least one transaction the guard protects, the rest not in flight
 	for g := guarded; g != 0; g = (g - 1) & guarded {
 		for f := free; ; f = (f - 1) & free {
-			evs = append(evs, c24Event{kind: "defer-dup", mask: g | f})
+			if c24Pop(f) <= in.tier.companions {
+				evs = append(evs, c24Event{kind: "defer-dup", mask: g | f})
+			}
 			if f == 0 {
 				break
 			}
@@ -391,22 +414,26 @@ func (in *c24Inst) refOf(cfg []c24Agg, seq []c24Event) uint8 {
 }
 
 // c24Runs shrinks the alphabet where a dimension is not read by the code under
-// the event: the commitments/responses classes are read by expiry only, so every
-// other event is enumerated with all proposals in the first class; timestamps
-// are read by expiry and by the announcement guard only, so retry / reset /
-// overflow / cutoff are enumerated with one age (the first) for every proposal
-// that shares no transaction with another one, the guard event with two (first
-// and youngest); for sharing proposals the ages decide who owns the shared
-// transaction and all admitted combinations stay.
+// the event. The commitments/responses classes are read by expiry; they are also
+// enumerated under the round reset with no owned transaction (a reset must not
+// distinguish them); every other event is enumerated with all proposals in the
+// first class. Timestamps are read by expiry and by the announcement guard only,
+// so retry / reset / overflow / cutoff are enumerated with one age (gap+1) for
+// every proposal that shares no transaction with another one, the guard event
+// with two (gap+1 and the youngest); for sharing proposals the ages decide who
+// owns the shared transaction and all admitted combinations stay.
 func c24Runs(t *c24Tier, cfg []c24Agg, e c24Event) bool {
 	if e.kind == "expire" {
 		return true
 	}
 	for k, a := range cfg {
-		if a.comp != 0 {
+		if t.oldestNarrow && a.age == t.oldest {
 			return false
 		}
-		if a.age == 0 || (e.kind == "defer-dup" && a.age == len(t.ages)-1) {
+		if a.comp != 0 && !(e.kind == "reset" && e.mask == 0) {
+			return false
+		}
+		if a.age == t.canon || (e.kind == "defer-dup" && a.age == len(t.ages)-1) {
 			continue // the guard event also needs the youngest age: it is what the guard protects
 		}
 		shares := false
@@ -700,7 +727,39 @@ func c24Configs(t *c24Tier) [][]c24Agg {
 		}
 	}
 	rec(0, nil)
-	return out
+	if !t.oldestNarrow {
+		return out
+	}
+	// narrow use of the oldest age: only for a proposal that shares a transaction
+	// with a proposal aged gap+1, all proposals of the configuration incomplete
+	// (one expiry pass retires both: the order of the pass matters)
+	kept := out[:0]
+next2:
+	for _, cfg := range out {
+		hasOldest := false
+		for k, a := range cfg {
+			if a.age != t.oldest {
+				continue
+			}
+			hasOldest = true
+			ok := false
+			for j, b := range cfg {
+				if j != k && a.set&b.set != 0 && b.age == t.canon {
+					ok = true
+				}
+			}
+			if !ok {
+				continue next2
+			}
+		}
+		for _, a := range cfg {
+			if cr := t.comps[a.comp]; hasOldest && cr[0] >= 0 && cr[1] == cr[0] {
+				continue next2
+			}
+		}
+		kept = append(kept, cfg)
+	}
+	return kept
 }
 
 func c24Tiers(c *verifmc.Check) []*c24Tier {
@@ -709,14 +768,14 @@ func c24Tiers(c *verifmc.Check) []*c24Tier {
 	comps3 := [][2]int{{-1, -1}, {0, -1}, {0, 0}}
 	comps4 := [][2]int{{-1, -1}, {0, -1}, {0, 0}, {2, 2}}
 	if !c.Thorough() {
-		return []*c24Tier{{name: "upto2", states: []int{c24Uc, c24Us, c24Un, c24Fc}, maxAggs: 2, ages: ages3, ageName: names3, comps: comps3, depth2: -1}}
+		return []*c24Tier{{name: "upto2", states: []int{c24Uc, c24Us, c24Un, c24Fc}, maxAggs: 2, ages: ages4, ageName: names4, comps: comps3, depth2: -1, canon: 1, oldest: 0, oldestNarrow: true, reps: 3, companions: 4}}
 	}
 	small := []int{c24Uc, c24Un, c24Fc}
 	return []*c24Tier{
-		{name: "upto2-wide", states: []int{c24Uc, c24Us, c24Un, c24Fc, c24Ub, c24Fn}, maxAggs: 2, ages: ages3, ageName: names3, comps: comps3, depth2: -1},
-		{name: "upto2-very-old", states: small, maxAggs: 2, ages: ages4, ageName: names4, comps: comps4, depth2: -1},
-		{name: "three", states: small, minAggs: 3, maxAggs: 3, ages: ages3, ageName: names3, comps: comps3, depth2: -1},
-		{name: "two-then-second-event", states: small, minAggs: 2, maxAggs: 2, ages: ages3, ageName: names3, comps: comps3, depth2: 2},
+		{name: "upto2-wide", states: []int{c24Uc, c24Us, c24Un, c24Fc, c24Ub, c24Fn}, maxAggs: 2, ages: ages3, ageName: names3, comps: comps3, depth2: -1, canon: 0, oldest: -1, reps: 8, companions: 4},
+		{name: "upto2-very-old", states: small, maxAggs: 2, ages: ages4, ageName: names4, comps: comps4, depth2: -1, canon: 1, oldest: 0, reps: 8, companions: 4},
+		{name: "three", states: small, minAggs: 3, maxAggs: 3, ages: ages3, ageName: names3, comps: comps3, depth2: -1, canon: 0, oldest: -1, reps: 8, companions: 4},
+		{name: "two-then-second-event", states: small, minAggs: 2, maxAggs: 2, ages: ages3, ageName: names3, comps: comps3, depth2: 2, canon: 0, oldest: -1, reps: 8, companions: 4},
 	}
 }
 
@@ -724,6 +783,7 @@ type c24Stats struct {
 	sharedLive, orderSensitive, completeKept, agedKept atomic.Int64
 	resetExcluded, overflowQueued, dupGuarded          atomic.Int64
 	sampled, single, planned                           atomic.Int64
+	orderReps, orderOnly                               atomic.Int64
 
 	fmu      sync.Mutex
 	found    map[string]*c24Report
@@ -733,8 +793,9 @@ type c24Stats struct {
 func TestMC_C24(t *testing.T) {
 	c := verifmc.Start(t, "C24", "exploration")
 	defer c.Finish()
-	c.SetRule("real 7-node fixture node; its own Chain is given every configuration of 0..N local proposals (CosiAggregators + CosiVerifiers as cosiSendAnnouncement installs them) over 4 real deposit transactions: every non-empty transaction set per proposal, every overlap the announcement guard admits (shared transaction only with timestamps >= SnapshotRoundGap apart, the later proposal owning the verifier entry), every age and every commitments/responses class per proposal (classes only under expiry, one age per non-sharing proposal under events that do not read timestamps); x every ledger/cache state of every referenced transaction (unreferenced ones are unfinalized with a cache body, the most observable state); x every enabled event: expireCosiAggregators(now), retryCosiSnapshot(P) per proposal, resetCosiStateForNewRound(owned) for every owned subset of one proposal, AppendSelfEmpty on a full CachePool, cosiSendAnnouncement deferred by the round cutoff and by the duplicate guard (thorough adds every sequence of two events, a wider alphabet and three proposals). After each event the raw queue keys are read and the queue is drained with CacheRetrieveTransactions(255). A case is distinct by (part, transaction states, configuration, event sequence)")
-	c.Assume("CoSi maps are built in-package the way cosiSendAnnouncement builds them (no network round trip); the deferred-announcement events run against a copy of the real cache round that holds one earlier snapshot; transactions handed over by the queue loop (overflow / deferred proposals) are not in flight elsewhere except where the duplicate guard is the subject; one node instance serves all cases of one transaction-state vector: its cache database is compared with the baseline image after every case and replaced by an empty one every 256 cases")
+	c.SetRule("real 7-node fixture node; its own Chain is given every configuration of 0..N local proposals (CosiAggregators + CosiVerifiers as cosiSendAnnouncement installs them) over 4 real deposit transactions: every non-empty transaction set per proposal, every overlap the announcement guard admits (shared transaction only with timestamps >= SnapshotRoundGap apart, the later proposal owning the verifier entry), every age and every commitments/responses class per proposal (classes under expiry and under the reset without owned transactions, one age per non-sharing proposal under events that do not read timestamps; quick: the age 2gap+2 only for an incomplete proposal sharing a transaction with an incomplete one aged gap+1, under expiry); x every ledger/cache state of every referenced transaction (unreferenced ones are unfinalized with a cache body, the most observable state); x every enabled event: expireCosiAggregators(now), retryCosiSnapshot(P) per proposal, resetCosiStateForNewRound(owned) for every owned subset of one proposal, AppendSelfEmpty on a full CachePool, cosiSendAnnouncement deferred by the round cutoff and by the duplicate guard (thorough adds every sequence of two events, a wider alphabet and three proposals). After each event the raw queue keys are read and the queue is drained with CacheRetrieveTransactions(255). A case is distinct by (part, transaction states, configuration, event sequence)")
+	c.Assume("CoSi maps are built in-package the way cosiSendAnnouncement builds them (no network round trip); the deferred-announcement events run against a copy of the real cache round that holds one earlier snapshot; transactions handed over by the queue loop (overflow / deferred proposals) are not in flight elsewhere except where the duplicate guard is the subject; one node instance serves all cases of one transaction-state vector: its cache database is compared with the baseline image after every case and replaced by an empty one every 256 cases",
+		"expireCosiAggregators walks the aggregator map in Go's randomized iteration order: an expiry case that retires two or more proposals is executed up to 3 times (thorough 8) with the proposals inserted alternately oldest / youngest first (a small Go map is visited in insertion order with probability 7/8, measured), and failing in some execution is the violation; for such a case the determinism gate is 'reproduces within 16 executions' in each of its 5 re-runs instead of 'reproduces in every execution'")
 	st := &c24Stats{found: map[string]*c24Report{}, perClass: map[string]int64{}}
 	complete := true
 	var parts []string
@@ -766,20 +827,35 @@ func TestMC_C24(t *testing.T) {
 				return false
 			}
 			defer in.close()
-			in.install(r.cfg)
-			for _, pe := range r.seq[:len(r.seq)-1] {
-				in.apply(r.cfg, pe, false)
+			// a case with several proposals under an event that walks the
+			// aggregator map may depend on Go's map iteration order: it counts
+			// as reproduced when it fails within 16 executions (insertion order
+			// alternating), every other case must fail at once
+			n := 1
+			if last := r.seq[len(r.seq)-1].kind; len(r.cfg) >= 2 && (last == "expire" || last == "reset") {
+				n = 16
 			}
-			fs, _, _ := in.apply(r.cfg, r.seq[len(r.seq)-1], true)
-			for _, f := range fs {
-				if f.key == k {
-					return true
+			for i := 0; i < n; i++ {
+				in.install(r.cfg, i%2 == 1)
+				for _, pe := range r.seq[:len(r.seq)-1] {
+					in.apply(r.cfg, pe, false)
+				}
+				fs, _, _ := in.apply(r.cfg, r.seq[len(r.seq)-1], true)
+				for _, f := range fs {
+					if f.key == k {
+						return true
+					}
+				}
+				if err := in.restore(); err != nil {
+					return false
 				}
 			}
 			return false
 		})
 	}
 	c.Set("failing_cases_per_class", st.perClass)
+	c.Set("repeated_executions_of_multi_retirement_expiry_cases", st.orderReps.Load())
+	c.Set("cases_failing_only_in_a_repeated_execution", st.orderOnly.Load())
 	c.Set("single_event_cases_planned", st.planned.Load())
 	c.Set("single_event_cases_executed", st.single.Load())
 	c.Set("retired_while_a_later_proposal_owns_a_shared_transaction", st.sharedLive.Load())
@@ -831,7 +907,7 @@ func c24RunPart(c *verifmc.Check, tier *c24Tier, stats *c24Stats) bool {
 			for _, a := range cfg {
 				union |= a.set
 			}
-			in.install(cfg)
+			in.install(cfg, false)
 			for _, e := range in.enabled(cfg) {
 				if !c24Runs(tier, cfg, e) {
 					continue
@@ -885,7 +961,7 @@ func c24RunPart(c *verifmc.Check, tier *c24Tier, stats *c24Stats) bool {
 		ci, evIndex := 0, 0
 		runCase := func(cfg []c24Agg, cs string, prefix []c24Event, e c24Event) {
 			evIndex++
-			in.install(cfg)
+			in.install(cfg, false)
 			for _, pe := range prefix {
 				in.apply(cfg, pe, false)
 			}
@@ -897,6 +973,34 @@ func c24RunPart(c *verifmc.Check, tier *c24Tier, stats *c24Stats) bool {
 				stats.single.Add(1)
 			}
 			c.Eval(1)
+			// An expiry pass that retires several proposals walks the aggregator
+			// map in Go's randomized order: execute the case again, inserting the
+			// proposals alternately youngest / oldest first (the insertion order is
+			// visited first with probability 7/8), until it fails or tier.reps
+			// executions are done. Failing in some execution is the violation.
+			if e.kind == "expire" && len(fs) == 0 {
+				retired := 0
+				for k := range cfg {
+					if aliveBefore[k] && in.chain.CosiAggregators[in.live[k].Hash] == nil {
+						retired++
+					}
+				}
+				for r := 1; retired >= 2 && r < tier.reps && len(fs) == 0; r++ {
+					if err := in.restore(); err != nil {
+						c.Require(false, "instance reuse is unsound for %s %s %v: %v", vec, cs, seq, err)
+					}
+					in.install(cfg, r%2 == 1)
+					for _, pe := range prefix {
+						in.apply(cfg, pe, false)
+					}
+					fs, outcome, q = in.apply(cfg, e, true)
+					c.Eval(1)
+					stats.orderReps.Add(1)
+					if len(fs) > 0 {
+						stats.orderOnly.Add(1)
+					}
+				}
+			}
 			c.AddTraces(1)
 			c.Distinct(tier.name + "|" + vec + "|" + cs + "|" + fmt.Sprint(seq))
 			c.Outcome(outcome)
@@ -979,7 +1083,7 @@ func c24RunPart(c *verifmc.Check, tier *c24Tier, stats *c24Stats) bool {
 			for _, a := range cfg {
 				union |= a.set
 			}
-			in.install(cfg)
+			in.install(cfg, false)
 			evs := in.enabled(cfg)
 			cs := c24CfgString(tier, cfg)
 			for _, e := range evs {
@@ -1001,7 +1105,7 @@ func c24RunPart(c *verifmc.Check, tier *c24Tier, stats *c24Stats) bool {
 				if e.kind != "expire" && e.kind != "retry" {
 					continue
 				}
-				in.install(cfg)
+				in.install(cfg, false)
 				in.apply(cfg, e, false)
 				if _, alive := in.liveMask(); alive == 0 || alive == len(cfg) {
 					if err := in.restore(); err != nil {
